@@ -9,9 +9,10 @@ Open Scope N_scope.
 Lemma step_inv : forall lgk s M rc,
   Inv lgk s M -> valid lgk rc ->
   8 * pop_rows (spec_update M rc) (Knat lgk) < 475 * 2 ^ lgk ->
+  fits lgk (spec_update M rc) (pop_rows (spec_update M rc) (Knat lgk)) ->
   exists s', row_col_update s rc = Ok s' /\ Inv lgk s' (spec_update M rc).
 Proof.
-  intros lgk s M rc I V Hdom. pose proof V as [Hrow Hrc].
+  intros lgk s M rc I V Hdom Hfits. pose proof V as [Hrow Hrc].
   pose proof (inv_lgk lgk s M I) as Hl. pose proof (rep_wf s M (inv_rep lgk s M I)) as W.
   unfold row_col_update.
   destruct (rc mod 64 <? c_fic s) eqn:Efic.
@@ -47,15 +48,19 @@ Qed.
 
 Lemma run_inv : forall lgk cs s M, Inv lgk s M -> Forall (valid lgk) cs ->
   8 * pop_rows (fold_left spec_update cs M) (Knat lgk) < 475 * 2 ^ lgk ->
+  fits_stream lgk M cs ->
   exists s', run_from s cs = Ok s' /\ Inv lgk s' (fold_left spec_update cs M).
 Proof.
-  intros lgk cs. induction cs as [|x cs IH]; intros s M I HF Hdom; cbn [fold_left run_from] in *.
+  intros lgk cs. induction cs as [|x cs IH]; intros s M I HF Hdom Hfs; cbn [fold_left run_from fits_stream] in *.
   - exists s. split; [reflexivity|exact I].
-  - inversion HF as [|? ? Hx HF']; subst.
+  - inversion HF as [|? ? Hx HF']; subst. destruct Hfs as [Hf1 Hfs'].
     pose proof (pop_rows_mono lgk cs (spec_update M x) HF') as Hm.
-    destruct (step_inv lgk s M x I Hx ltac:(lia)) as [s1 [E1 I1]].
+    destruct (step_inv lgk s M x I Hx ltac:(lia) Hf1) as [s1 [E1 I1]].
     rewrite E1. cbn [obind]. apply IH; assumption.
 Qed.
+
+(* the stream never makes the surprising-value table outgrow its capacity *)
+Definition cpc_fits (lgk : N) (cs : list N) : Prop := fits_stream lgk (fun _ => 0) cs.
 
 (* ---------- C05: cpc_refines ---------- *)
 Definition fic_ok (lgk : N) (s : cpc) (M : matrix) : Prop :=
@@ -70,7 +75,7 @@ Proof.
 Qed.
 
 Theorem cpc_refines : forall lgk cs,
-  4 <= lgk <= 26 -> Forall (valid lgk) cs -> 8 * distinct cs < 475 * 2 ^ lgk ->
+  4 <= lgk <= 26 -> Forall (valid lgk) cs -> 8 * distinct cs < 475 * 2 ^ lgk -> cpc_fits lgk cs ->
   exists s, cpc_run lgk cs = Ok s /\
     build_bit_matrix s = Ok (rows_of (spec cs) (Knat lgk)) /\
     c_num s = pop_rows (spec cs) (Knat lgk) /\
@@ -81,13 +86,14 @@ Theorem cpc_refines : forall lgk cs,
     c_off s <= 56 /\
     cpc_validate s = Ok true.
 Proof.
-  intros lgk cs Hrg HF Hdom.
+  intros lgk cs Hrg HF Hdom Hfit.
   assert (Hrows : Forall (fun rc => rc / 64 < N.of_nat (Knat lgk)) cs).
   { apply Forall_forall. intros x Hx. rewrite Forall_forall in HF. destruct (HF x Hx) as [H _]. rewrite Knat_N. exact H. }
   pose proof (pop_rows_spec_distinct cs (Knat lgk) Hrows) as Hdist.
   destruct (new_inv lgk Hrg) as [s0 [E0 I0]].
   destruct (run_inv lgk cs s0 (fun _ => 0) I0 HF) as [s [E I]].
   { fold (spec cs). rewrite Hdist. exact Hdom. }
+  { exact Hfit. }
   fold (spec cs) in I.
   exists s. unfold cpc_run. rewrite E0. cbn [obind]. split; [exact E|].
   destruct I as [R Hl Hrg' Hoff Hwin Hfl Hfic Hnm].
@@ -121,15 +127,16 @@ Qed.
 Theorem from_matrix_abs : forall lgk m off C fic0 mg kxp hip,
   length m = Knat lgk -> Forall (fun w => w < 2 ^ 64) m -> off <= 56 -> C <> 0 ->
   (forall r c, r < 2 ^ lgk -> c < 64 -> N.testbit (nthN m r 0) c = true -> r * 64 + c <> U32MAX) ->
+  tbl_full lgk (load lgk (fun r => nthN m r 0) true off) = false ->
   exists win tab fic,
-    from_matrix 255 255 off m = Ok (win, tab, fic) /\
+    from_matrix lgk 255 255 off m = Ok (win, tab, fic) /\
     build_bit_matrix (mkCpc lgk fic0 C (Some tab) off win mg kxp hip) = Ok m /\
     fic <= off /\ (forall r c, r < 2 ^ lgk -> c < fic -> N.testbit (nthN m r 0) c = true).
 Proof.
-  intros lgk m off C fic0 mg kxp hip Hlen Hlt Hoff HC Hnm.
+  intros lgk m off C fic0 mg kxp hip Hlen Hlt Hoff HC Hnm Hfit.
   assert (H64 : Forall word64 m).
   { apply Forall_forall. intros w Hw. apply word64_lt. rewrite Forall_forall in Hlt. apply Hlt. exact Hw. }
-  destruct (from_matrix_succeeds lgk m off Hlen Hoff Hnm) as [win [tab [fic Efm]]].
+  destruct (from_matrix_succeeds lgk m off Hlen Hoff Hnm Hfit) as [win [tab [fic Efm]]].
   exists win, tab, fic. split; [exact Efm|].
   destruct (from_matrix_state lgk m off C fic0 mg kxp hip win tab fic Hlen H64 Hoff HC Hnm Efm) as [W [Hw Hb]].
   destruct (build_bits _ W) as [m' [Em [Hlen' Hbits]]]. proj.
@@ -141,8 +148,7 @@ Proof.
     + symmetry. assert (Hw64 : word64 (nthN m r 0)).
       { apply nthN_Forall; [exact H64|rewrite Hlen, Knat_N; exact Hr]. }
       apply Hw64. lia.
-  - unfold from_matrix in Efm. destruct (memN U32MAX _); [discriminate|]. injection Efm as _ _ <-.
-    apply (fm_fic_ok lgk m off Hlen Hoff).
+  - rewrite (from_matrix_fic _ _ _ _ _ _ _ _ Efm). apply (fm_fic_ok lgk m off Hlen Hoff).
 Qed.
 
 (* ---------- thresholds ---------- *)
@@ -161,23 +167,31 @@ Proof.
 Qed.
 
 Lemma cpc_run_inv : forall lgk cs,
-  4 <= lgk <= 26 -> Forall (valid lgk) cs -> 8 * distinct cs < 475 * 2 ^ lgk ->
+  4 <= lgk <= 26 -> Forall (valid lgk) cs -> 8 * distinct cs < 475 * 2 ^ lgk -> cpc_fits lgk cs ->
   exists s, cpc_run lgk cs = Ok s /\ Inv lgk s (spec cs).
 Proof.
-  intros lgk cs Hrg HF Hdom.
+  intros lgk cs Hrg HF Hdom Hfit.
   assert (Hrows : Forall (fun rc => rc / 64 < N.of_nat (Knat lgk)) cs).
   { apply Forall_forall. intros x Hx. rewrite Forall_forall in HF. destruct (HF x Hx) as [H _]. rewrite Knat_N. exact H. }
   pose proof (pop_rows_spec_distinct cs (Knat lgk) Hrows) as Hdist.
   destruct (new_inv lgk Hrg) as [s0 [E0 I0]].
   destruct (run_inv lgk cs s0 (fun _ => 0) I0 HF) as [s [E I]].
   { fold (spec cs). rewrite Hdist. exact Hdom. }
+  { exact Hfit. }
   exists s. unfold cpc_run. rewrite E0. cbn [obind]. split; [exact E|exact I].
+Qed.
+
+Lemma fits_stream_prefix : forall lgk a b M, fits_stream lgk M (a ++ b) -> fits_stream lgk M a.
+Proof.
+  intros lgk a. induction a as [|x a IH]; intros b M H; cbn [app fits_stream] in *; [exact I|].
+  destruct H as [H1 H2]. split; [exact H1|apply (IH b); exact H2].
 Qed.
 
 (* the window moves exactly when 8C reaches (27 + 8w)K, by exactly one column, and the new offset is
    the correct offset of the new coupon count *)
 Theorem cpc_flavor_thresholds : forall lgk cs rc s,
   4 <= lgk <= 26 -> Forall (valid lgk) cs -> valid lgk rc -> 8 * distinct (cs ++ [rc]) < 475 * 2 ^ lgk ->
+  cpc_fits lgk (cs ++ [rc]) ->
   cpc_run lgk cs = Ok s ->
   exists s', row_col_update s rc = Ok s' /\
     (c_num s' = c_num s \/ c_num s' = c_num s + 1) /\
@@ -185,13 +199,13 @@ Theorem cpc_flavor_thresholds : forall lgk cs rc s,
      (c_off s' = c_off s /\ 8 * c_num s' < (27 + 8 * c_off s) * 2 ^ lgk)) /\
     c_off s' = determine_correct_offset lgk (c_num s').
 Proof.
-  intros lgk cs rc s Hrg HF V Hdom Hrun.
+  intros lgk cs rc s Hrg HF V Hdom Hfit Hrun.
   assert (HF' : Forall (valid lgk) (cs ++ [rc])) by (apply Forall_app; split; [exact HF|constructor; [exact V|constructor]]).
-  destruct (cpc_run_inv lgk (cs ++ [rc]) Hrg HF' Hdom) as [s' [E' I']].
+  destruct (cpc_run_inv lgk (cs ++ [rc]) Hrg HF' Hdom Hfit) as [s' [E' I']].
   assert (Hd0 : 8 * distinct cs < 475 * 2 ^ lgk).
   { assert (distinct cs <= distinct (cs ++ [rc])); [|lia]. unfold distinct. rewrite nodup_snoc_length.
     destruct (in_dec N.eq_dec rc cs); lia. }
-  destruct (cpc_run_inv lgk cs Hrg HF Hd0) as [s0 [E0 I0]].
+  destruct (cpc_run_inv lgk cs Hrg HF Hd0 (fits_stream_prefix lgk cs [rc] _ Hfit)) as [s0 [E0 I0]].
   rewrite Hrun in E0. injection E0 as <-.
   rewrite cpc_run_app, Hrun in E'. cbn [obind] in E'.
   exists s'. split; [exact E'|].
@@ -246,10 +260,10 @@ Proof.
 Qed.
 
 Theorem cpc_no_stuck : forall lgk cs,
-  4 <= lgk <= 26 -> Forall (valid lgk) cs -> 8 * distinct cs < 475 * 2 ^ lgk ->
+  4 <= lgk <= 26 -> Forall (valid lgk) cs -> 8 * distinct cs < 475 * 2 ^ lgk -> cpc_fits lgk cs ->
   exists s, cpc_run lgk cs = Ok s /\ (exists m, build_bit_matrix s = Ok m) /\ cpc_validate s = Ok true.
 Proof.
-  intros lgk cs Hrg HF Hdom. destruct (cpc_refines lgk cs Hrg HF Hdom) as [s [E [Hm [_ [_ [_ [_ [_ [_ Hv]]]]]]]]].
+  intros lgk cs Hrg HF Hdom Hfit. destruct (cpc_refines lgk cs Hrg HF Hdom Hfit) as [s [E [Hm [_ [_ [_ [_ [_ [_ Hv]]]]]]]]].
   exists s. split; [exact E|]. split; [eexists; exact Hm|exact Hv].
 Qed.
 
@@ -257,10 +271,11 @@ Qed.
 Theorem cpc_update_no_stuck : forall lgk hs,
   4 <= lgk <= 26 ->
   8 * distinct (map (fun h => row_col_of_hash lgk (fst h) (snd h)) hs) < 475 * 2 ^ lgk ->
+  cpc_fits lgk (map (fun h => row_col_of_hash lgk (fst h) (snd h)) hs) ->
   exists s, cpc_run lgk (map (fun h => row_col_of_hash lgk (fst h) (snd h)) hs) = Ok s.
 Proof.
-  intros lgk hs Hrg Hdom.
-  destruct (cpc_no_stuck lgk (map (fun h => row_col_of_hash lgk (fst h) (snd h)) hs) Hrg) as [s [E _]]; [|exact Hdom|exists s; exact E].
+  intros lgk hs Hrg Hdom Hfit.
+  destruct (cpc_no_stuck lgk (map (fun h => row_col_of_hash lgk (fst h) (snd h)) hs) Hrg) as [s [E _]]; [|exact Hdom|exact Hfit|exists s; exact E].
   apply Forall_forall. intros x Hx. apply in_map_iff in Hx. destruct Hx as [h [<- _]].
   apply row_col_of_hash_valid. exact Hrg.
 Qed.
@@ -273,3 +288,22 @@ Qed.
 
 Lemma move_window_literals : MW_FF = 255 /\ MW_FF2 = 255.
 Proof. split; reflexivity. Qed.
+
+(* without the capacity hypothesis the no-panic claim fails inside 8C < 475K: lg_k = 4, the 24 rightmost columns of
+   every row (384 coupons, 8C = 3072 < 7600) need more than the 384 surprising values a lg_k-4 table can hold; the
+   model is Stuck exactly where the crate panics (PairTable::rebuild, pair_table.rs) *)
+Definition overflow_stream : list N :=
+  flat_map (fun c => map (fun r => r * 64 + c) (map N.of_nat (seq 0 16))) (map (fun i => 40 + N.of_nat i) (seq 0 24)).
+
+Lemma table_capacity_needed :
+  Forall (valid 4) overflow_stream /\ 8 * distinct overflow_stream < 475 * 2 ^ 4 /\ cpc_run 4 overflow_stream = Stuck.
+Proof.
+  split; [|split].
+  - unfold valid. apply Forall_forall. intros x Hx. unfold overflow_stream in Hx.
+    apply in_flat_map in Hx. destruct Hx as [c [Hc Hx]]. apply in_map_iff in Hx. destruct Hx as [r [<- Hr]].
+    apply in_map_iff in Hc. destruct Hc as [i [<- Hi]]. apply in_seq in Hi.
+    apply in_map_iff in Hr. destruct Hr as [j [<- Hj]]. apply in_seq in Hj.
+    change (2 ^ 4) with 16. unfold U32MAX. split; lia.
+  - vm_compute. reflexivity.
+  - vm_compute. reflexivity.
+Qed.
